@@ -502,8 +502,8 @@ func runPipeline(c *simrun.Ctx) *simrun.Violation {
 				if err != nil {
 					fp.prebuilt = nil
 				} else if t.Chance("odd-shape", 1, 6) {
-					if kind := t.Draw("odd-kind", 3); simval.OddShape(kind, t.Draw("odd-sel", 1<<16), fp.prebuilt) {
-						st.Add([]string{"fault_nil_message_map_value", "fault_typed_nil_oneof_wrapper", "fault_oneof_wrapper_with_nil_message"}[kind], 1)
+					if kind := t.Draw("odd-kind", 4); simval.OddShape(kind, t.Draw("odd-sel", 1<<16), fp.prebuilt) {
+						st.Add([]string{"fault_nil_message_map_value", "fault_typed_nil_oneof_wrapper", "fault_oneof_wrapper_with_nil_message", "fault_nil_element_in_repeated_message_field"}[kind], 1)
 					}
 				}
 				for k, n := 0, t.Draw("roops", 4); k < n; k++ {
